@@ -155,7 +155,7 @@ Section Std.
   Theorem gammastd_spec x nd c0 c1 alpha beta :
     length (filter (fun v => fleb OpsR 0 v) (filter (fun v => negb (feqb OpsR v nd)) x)) <> 0%nat ->
     ~ k_09 K < p_zero_of x nd ->
-    gammafit OpsR Or K (firstn (c1 - c0) (skipn c0 x)) = Some (alpha, beta) -> alpha <> 0 -> beta <> 0 ->
+    gammafit OpsR Or K (cal_window OpsR x nd c0 c1) = Some (alpha, beta) -> alpha <> 0 -> beta <> 0 ->
     gammastd OpsR Or K x nd c0 c1 =
     map (fun v => if valid_obs OpsR nd v
                   then Some (o_ndtri Or (p_zero_of x nd + (1 - p_zero_of x nd) * o_gammainc Or alpha (v / beta)))
@@ -167,6 +167,18 @@ Section Std.
     replace (Rltb (k_09 K) (IZR (Z.of_nat _) / IZR (Z.of_nat _))) with false.
     2:{ symmetry. apply not_true_is_false. intros E. apply Rltb_true in E. apply Hp. exact E. }
     rewrite Hfit. cbn [feqb OpsR]. rewrite (Reqb_neq alpha 0 Ha), (Reqb_neq beta 0 Hb). reflexivity.
+  Qed.
+
+  (** the fit sees observations only: no cell of the calibration slice that equals nodata reaches gammafit (whatever the sign of
+      nodata), and the cells that do are the slice's other cells in their order *)
+  Theorem cal_window_observations x nd c0 c1 :
+    (forall v, In v (cal_window OpsR x nd c0 c1) -> v <> nd /\ In v (firstn (c1 - c0) (skipn c0 x))) /\
+    (forall v, In v (firstn (c1 - c0) (skipn c0 x)) -> v <> nd -> In v (cal_window OpsR x nd c0 c1)).
+  Proof.
+    unfold cal_window. split.
+    - intros v H. apply filter_In in H. destruct H as [Hin Hb]. split; [|exact Hin].
+      intros E. subst v. cbn [feqb OpsR] in Hb. rewrite Reqb_refl in Hb. discriminate.
+    - intros v Hin Hne. apply filter_In. split; [exact Hin|]. cbn [feqb OpsR]. rewrite (Reqb_neq v nd Hne). reflexivity.
   Qed.
 
   (** nodata cells and negative values yield nodata, always *)
@@ -185,7 +197,7 @@ Section Std.
   (** a pixel that cannot be fitted yields nodata everywhere (no valid cell; > 90% zeros; no fit) *)
   Theorem gammastd_unfittable x nd c0 c1 :
     (length (filter (fun v => fleb OpsR 0 v) (filter (fun v => negb (feqb OpsR v nd)) x)) = 0%nat \/
-     k_09 K < p_zero_of x nd \/ gammafit OpsR Or K (firstn (c1 - c0) (skipn c0 x)) = None) ->
+     k_09 K < p_zero_of x nd \/ gammafit OpsR Or K (cal_window OpsR x nd c0 c1) = None) ->
     gammastd OpsR Or K x nd c0 c1 = map (fun _ => None) x.
   Proof.
     intros H. unfold gammastd. cbn [f0 f1 OpsR]. destruct (Nat.eqb _ 0) eqn:E0; [reflexivity|].
